@@ -15,7 +15,7 @@ CONSTANTS D,        \* units per day
 VARIABLES cfg, t, active
 
 W == 7 * D
-OffsQuick == {-9, -3, 0, 4, 11}            \* units of 3 hours: -27 h .. +33 h (beyond a day on both sides)
+OffsQuick == {-7, -2, 0, 3, 8}             \* units of 4 hours: -28 h .. +32 h (beyond a day on both sides)
 OffsThorough == {-12, -5, 0, 6, 14}       \* hours
 OffsZero == {0}
 Local(x) == (x + cfg.off) % W
